@@ -43,6 +43,8 @@ fn main() {
         }
         let code = match args[1].as_str() {
             "C01" => vharness::checks::c01::run(tier),
+            "C02" => vharness::checks::c02::run(tier),
+            "C03" => vharness::checks::c03::run(tier),
             other => {
                 eprintln!("unknown check {other}");
                 2
